@@ -157,14 +157,27 @@ def case_hypercube(**p):
       tot = sym.s_add(tot, sym.s_mul(W[idx + (v,)], K[v, u]))
     o = out[idx] if units > 1 else out[idx + (0,)]
     bad.append(sym.NE(o, tot))
-  case.solve('output-is-weights-times-kernel', core.any_of(bad), witness=dict(x=x, k=K), timeout=tmo,
-             sig=dict(query='wiring', interp='hypercube'), replay=replay)
+  if p.get('poly'):
+    # unclipped inputs: everything is a polynomial in x and the kernel; decided by normal forms (Case.identity)
+    pairs = []
+    for pi, (idx, xs) in enumerate(pts):
+      u = idx[-1] if units > 1 else 0
+      tot = 0
+      for v in range(n):
+        tot = sym.s_add(tot, sym.s_mul(W[idx + (v,)], K[v, u]))
+      pairs.append((out[idx] if units > 1 else out[idx + (0,)], tot))
+    case.identity('output-is-weights-times-kernel', pairs, witness=dict(x=x, k=K), timeout=tmo, sig=dict(query='wiring', interp='hypercube'),
+                  replay=replay)
+  else:
+    case.solve('output-is-weights-times-kernel', core.any_of(bad), witness=dict(x=x, k=K), timeout=tmo,
+               sig=dict(query='wiring', interp='hypercube'), replay=replay)
   # weights == reference multilinear weights, per cell, for the first point (all points are symmetric)
   for idx, xs in pts[:2]:
     for cell in _cells(sizes):
       assume = _cell_assumption(xs, sizes, cell, p['clip'])
       xc = _clipped(xs, sizes, p['clip'])
       bad = []
+      refs = []
       for v, vidx in enumerate(np.ndindex(*sizes)):
         ref = 1
         for d in range(len(sizes)):
@@ -178,8 +191,13 @@ def case_hypercube(**p):
             ref = 0
             break
         bad.append(sym.NE(W[idx + (v,)], ref))
-      case.solve('weights-are-multilinear[cell=%s,pt=%s]' % (list(cell), list(idx)), core.any_of(bad), assumptions=assume,
-                 witness=dict(x=x), timeout=tmo, sig=dict(query='weights', interp='hypercube'), replay=replay)
+        refs.append((W[idx + (v,)], ref))
+      if p.get('poly'):
+        case.identity('weights-are-multilinear[cell=%s,pt=%s]' % (list(cell), list(idx)), refs, assumptions=assume, witness=dict(x=x), timeout=tmo,
+                      sig=dict(query='weights', interp='hypercube'), replay=replay)
+      else:
+        case.solve('weights-are-multilinear[cell=%s,pt=%s]' % (list(cell), list(idx)), core.any_of(bad), assumptions=assume,
+                   witness=dict(x=x), timeout=tmo, sig=dict(query='weights', interp='hypercube'), replay=replay)
   # convex combination: weights >= 0 and sum to 1 (clipped, or in range)
   idx, xs = pts[0]
   assume = [] if p['clip'] else [z3.And(xv >= 0, xv <= s - 1) for xv, s in zip(xs, sizes)]
@@ -188,8 +206,9 @@ def case_hypercube(**p):
   for v in range(n):
     tot = sym.s_add(tot, W[idx + (v,)])
     neg.append(sym.s_cmp('lt', W[idx + (v,)], 0))
-  case.solve('weights-convex', core.any_of(neg + [sym.NE(tot, 1)]), assumptions=assume, witness=dict(x=x), timeout=tmo,
-             sig=dict(query='convex', interp='hypercube'), replay=replay, required=len(sizes) <= 3)
+  if not p.get('poly'):
+    case.solve('weights-convex', core.any_of(neg + [sym.NE(tot, 1)]), assumptions=assume, witness=dict(x=x), timeout=tmo,
+               sig=dict(query='convex', interp='hypercube'), replay=replay, required=len(sizes) <= 3)
   case.solve('twin:weights-not-constant', sym.NE(W[idx + (0,)], 1), expect='sat', kind='twin', timeout=30)
   return case
 
@@ -523,6 +542,8 @@ def cases(tier, seed):
       add('case_hypercube', sizes=sizes, units=1, interp='hypercube', clip=clip)
       add('case_simplex', sizes=sizes, units=1, interp='simplex', clip=clip)
   add('case_hypercube', sizes=[2, 3], units=2, interp='hypercube', clip=True)
+  # rank 8 (the code switches to another outer-product implementation above 7 dimensions): unclipped, decided by normal forms
+  add('case_hypercube', sizes=[2] * 8, units=1, interp='hypercube', clip=False, poly=True, cap=900)
   add('case_hypercube', sizes=[2, 2], units=2, interp='hypercube', clip=True)
   add('case_hypercube', sizes=[3, 2], units=1, interp='hypercube', clip=True, list_input=True)
   add('case_hypercube', sizes=[2, 2, 2], units=2, interp='hypercube', clip=True, list_input=True)
